@@ -317,6 +317,30 @@ def statusOk : Rec → Bool
   | .conStatus _ _ _ u b f => (f && !b && !u) || (!f && b)
   | _ => true
 
+def single (r : NodeRef) : Bool := r.beg == r.last
+
+/-- shape of a link record for its link type (valcvt-link.h, redef/MIP/range_con.h): CopyLink one range -> one range of
+    equal length; One2ManyLink one item -> one range; Many2OneLink one range -> one item; Range2Slk one range constraint ->
+    one equality constraint + one slack variable; other link types: at least one source and one destination -/
+def linkShapeOk (lty : Str) (src dst : List NodeRef) : Bool :=
+  if lty = cl!"CopyLink" then
+    match src, dst with
+    | [a], [b] => a.last - a.beg == b.last - b.beg
+    | _, _ => false
+  else if lty = cl!"One2ManyLink" then
+    match src, dst with
+    | [a], [_] => single a
+    | _, _ => false
+  else if lty = cl!"Many2OneLink" then
+    match src, dst with
+    | [_], [b] => single b
+    | _, _ => false
+  else if lty = cl!"Range2Slk<...>" then
+    match src, dst with
+    | [a], [b, c] => single a && single b && single c && c.node = cl!"dest_vars()"
+    | _, _ => false
+  else !src.isEmpty && !dst.isEmpty
+
 /-- per-record conditions -/
 def recOk (g : List Rec) (d : Delivered) : Rec → Bool
   | .comment => true
@@ -328,7 +352,7 @@ def recOk (g : List Rec) (d : Delivered) : Rec → Bool
   | .conNew ty i => i < classSize g ty && countNew g ty i == 1 && countStatus g ty i == 1
   | .conStatus ty i nm u b f => statusOk (.conStatus ty i nm u b f) && g.contains (.conNew ty i)
   | .conGroup _ _ => true
-  | .link _ _ src dst => src.all (refOk g d) && dst.all (refOk g d)
+  | .link lty _ src dst => src.all (refOk g d) && dst.all (refOk g d) && linkShapeOk lty src dst
 
 /-- the validator -/
 def checkGraph (g : List Rec) (d : Delivered) : Bool :=
